@@ -3,7 +3,7 @@
    the table o (== != < <= > >= - ++ -- + += - -= [] * ) is integer arithmetic on positions. *)
 From Coq Require Import List ZArith Bool.
 From Coq Require Import Sorted Permutation.
-From DuneV Require Import Params_gen C16_Model C16_Spec C16_Proofs C16_Proofs_Ranges C16_Proofs_Audit C16_Proofs_Deep C16_Proofs_Deep2.
+From DuneV Require Import Params_gen C16_Model C16_Spec C16_Proofs C16_Proofs_Ranges C16_Proofs_Audit C16_Proofs_Deep C16_Proofs_Deep2 C16_Proofs_Audit2.
 Import ListNotations.
 Local Open Scope Z_scope.
 
@@ -482,4 +482,56 @@ Example C16_ex_deep_arraylist_traversal :
 Proof. vm_compute. reflexivity. Qed.
 Example C16_ex_self_operand : let o := c16_legacy_ops (c16_alist_prims 2 3 [-7; -7; 1; 2; 3]) false in
   c16_o_lt o (c16_alist_rep 2 1) (c16_alist_rep 2 1) = false /\ c16_o_pluseq o 3 (c16_o_diff o 3 3) = 3 /\ c16_swap 1 2 = (2, 1).
+Proof. vm_compute. repeat split; reflexivity. Qed.
+
+(* ---- dimension audit 2.  A: PRE-EXISTING STATE OF THE TARGET -- copy / move / converting assignment of every iterator and range class onto a
+   target that already holds another container, position, index, function object or range yields exactly the source, for ALL targets *)
+Theorem C16_assignment_overwrites_target :
+  (forall (P : Type) (t s : P), c16_assign_over t s = s) /\
+  (forall (P : Type) (t s : Z * P), c16_tag_assign_over t s = s /\ c16_tag_convert_assign_over t s = s) /\
+  (forall (P : Type) (t s : P * Z), c16_idx_assign_over t s = s /\ c16_tri_assign_over t s = s) /\
+  (forall (R F : Type) (t s : R * F), c16_range_assign_over t s = s) /\
+  (forall (P V W : Type) (o : c16_ops P V) (fs : Z -> V -> W) (t s : P * Z),
+      c16_tri_star o fs (c16_tri_assign_over t s) = fs (snd s) (c16_o_star o (fst s))).
+Proof. exact c16_assignment_overwrites_target. Qed.
+Print Assumptions C16_assignment_overwrites_target.
+
+Theorem C16_assignment_target_independent :
+  forall (P V : Type) (o : c16_ops P V) (t1 t2 s x : P * Z),
+    c16_idx_assign_over t1 s = c16_idx_assign_over t2 s /\
+    c16_o_eq (c16_idx_ops o) (c16_idx_assign_over t1 s) x = c16_o_eq (c16_idx_ops o) s x /\
+    c16_o_diff (c16_idx_ops o) (c16_idx_assign_over t1 s) x = c16_o_diff (c16_idx_ops o) s x /\
+    c16_o_star (c16_idx_ops o) (c16_idx_assign_over t1 s) = c16_o_star (c16_idx_ops o) s /\
+    c16_idx_index (c16_idx_assign_over t1 s) = c16_idx_index s.
+Proof. exact c16_assignment_target_independent. Qed.
+Print Assumptions C16_assignment_target_independent.
+
+(* B: ASYMMETRIC CONFIGURATION -- two IndexedIterators carrying DIFFERENT indices (and an IndexedIterator against its plain base iterator) compare,
+   subtract and dereference by position only; the index stored in the END iterator of a sparse range is irrelevant *)
+Theorem C16_indexed_index_independent :
+  forall (P V : Type) (o : c16_ops P V) (a b : P) (i j : Z),
+    let io := c16_idx_ops o in
+    c16_o_eq io (a, i) (b, j) = c16_o_eq o a b /\ c16_o_ne io (a, i) (b, j) = c16_o_ne o a b /\
+    c16_o_lt io (a, i) (b, j) = c16_o_lt o a b /\ c16_o_le io (a, i) (b, j) = c16_o_le o a b /\
+    c16_o_gt io (a, i) (b, j) = c16_o_gt o a b /\ c16_o_ge io (a, i) (b, j) = c16_o_ge o a b /\
+    c16_o_diff io (a, i) (b, j) = c16_o_diff o a b /\ c16_o_star io (a, i) = c16_o_star o a /\
+    c16_idx_vs_base_eq o (a, i) b = c16_o_eq o a b /\ c16_idx_vs_base_diff o (a, i) b = c16_o_diff o a b.
+Proof. exact c16_indexed_index_independent. Qed.
+Print Assumptions C16_indexed_index_independent.
+
+Theorem C16_sparse_indexed_end_index_irrelevant :
+  forall (P V : Type) (o : c16_ops P V) (fuel : nat) (b : P * Z) (e : P) (j j' : Z),
+    c16_range_for (c16_sparse_over (c16_idx_ops o) c16_idx_index) fuel (c16_iterrange b (e, j)) =
+    c16_range_for (c16_sparse_over (c16_idx_ops o) c16_idx_index) fuel (c16_iterrange b (e, j')).
+Proof. exact c16_sparse_indexed_end_index_irrelevant. Qed.
+Print Assumptions C16_sparse_indexed_end_index_irrelevant.
+
+Example C16_ex_assign_over : c16_tag_convert_assign_over (8, c16_dense_rep (-1)) (7, c16_dense_rep 2) = (7, 2) /\
+  c16_idx_assign_over (5, 1000000) (2, -5) = (2, -5) /\
+  c16_tri_star (c16_tr_ops (fun x => x) [4; 5; 6]) (fun id v => option_map (fun x => id * x) v) (c16_tri_assign_over (2, 10) (1, 3)) = Some 15 /\
+  c16_range_assign_over ([9; 9], 7) ([1; 2; 3], -1) = ([1; 2; 3], -1) /\ c16_range_assign_over (0, 9) (c16_sir_to_ir 2 6) = (2, 6).
+Proof. vm_compute. repeat split; reflexivity. Qed.
+Example C16_ex_indexed_asymmetric : let io := c16_idx_ops (c16_tr_ops (fun x => x) [4; 5; 6]) in
+  c16_o_eq io (1, 7) (1, -5) = true /\ c16_o_lt io (0, 1000000) (2, 0) = true /\ c16_o_diff io (3, 0) (1, 77) = 2 /\
+  c16_range_for (c16_sparse_over io c16_idx_index) 5 (c16_iterrange (0, 10) (3, -1)) = C16Ok [(Some 4, 10); (Some 5, 11); (Some 6, 12)].
 Proof. vm_compute. repeat split; reflexivity. Qed.
